@@ -32,7 +32,7 @@ META = {
             "owner within 3 hops (next-hop function as parameter, and instantiated with the NLNR hop of comm_router.hpp), and that at "
             "quiescence the stored value is the fold of the contributions.",
     "note": "Trusted: Lean kernel + propext/Classical.choice/Quot.sound; hand-written model Cache.lean tied to reducing_adapter.hpp on the explored "
-            "runs only; exactly-once delivery of packed messages is C01's theorem (checked here on the logs); the operator is assumed "
+            "runs only; exactly-once delivery of packed messages is DERIVED from the communicator model (Props/ContainersComm: ReduceComm.C16_reduce_after_barrier, values Nat) and checked on the logs; the operator is assumed "
             "associative and commutative (stated as hypotheses); reduce_by_key_map's source traversal is compared by result only.",
 }
 
